@@ -139,8 +139,10 @@ void chk_run_case(uint64_t seed, long c, bool is_sweep)
         for (int i = 0; i < MAXL; i++) { free(snap[i]); snap[i] = NULL; }
         nsnap = 0; lines_started = 0; solo_line = -1;
         sch_eager(&RS); sch_eager(&WS);
+        if (chance(30)) { sch_bern(&RS, 40 + rn(55), rnd()); CNT("streams_with_paced_input"); }      /* the stream arrives in chunks (pauses anywhere, also behind a stray CR or inside a broken prefix); the single lines are fed at once */
         out_reset();
         bool q = run_stream((int)rn(2), v0);
+        sch_eager(&RS);
         if (!q) { inconclusive("stream run did not reach quiescence (C15's subject)"); return; }
         seq_n = 0; for (size_t i = 0; i < OUTN && seq_n < sizeof seq_out; i++) if (OUTP[i] == 'A') seq_out[seq_n++] = OUTB[i];      /* bytes of the command producer */
         /* line by line on fresh parsers */
